@@ -42,6 +42,10 @@ type vLink struct {
 	delayUntil time.Time
 	dues       []time.Time
 	fates      int // highest fate value offered (2: deliver/drop/duplicate, 3: + delay)
+	// latFn: per-packet latency (argument: number of packets received so
+	// far on this link), in addition to lat
+	latFn func(i int) time.Duration
+	recvd int
 	// skip: once armed, this many packets pass untouched before the fault
 	// budget starts (moves the fault window into the run: retransmissions,
 	// acknowledgements of later packets, pings)
@@ -148,6 +152,15 @@ func (l *vLink) recv(ctx context.Context) ([]byte, error) {
 		}
 		if l.lat > 0 {
 			time.Sleep(l.lat)
+		}
+		if l.latFn != nil {
+			l.mu.Lock()
+			i := l.recvd
+			l.recvd++
+			l.mu.Unlock()
+			if d := l.latFn(i); d > 0 {
+				time.Sleep(d)
+			}
 		}
 		return b, nil
 	case <-ctx.Done():
